@@ -36,6 +36,7 @@ def run_shard(check_class, tier, seed, shard, nshards, triage=False):
     known = core.load_known_findings(check.ID)
     observed = collections.OrderedDict()   # key -> first Violation
     counts = collections.Counter()
+    cases_per_key = collections.Counter()
     harness_errors = []
 
     def run_case(case, origin):
@@ -45,6 +46,8 @@ def run_shard(check_class, tier, seed, shard, nshards, triage=False):
             except Exception:  # pylint: disable=broad-except
                 harness_errors.append({'case': core.jsonable(case), 'trace': traceback.format_exc()[-1500:]})
                 return []
+        for key in set(violation.key for violation in found):
+            cases_per_key[key] += 1
         for violation in found:
             counts[violation.key] += 1
             if violation.key not in observed:
@@ -77,8 +80,8 @@ def run_shard(check_class, tier, seed, shard, nshards, triage=False):
             continue
         # a key counts once it has been observed a second time. The library draws from the process-wide RNG in a few places
         # (default cookies, paddings), so a failure that depends on the draw needs more than one further attempt to show again
-        again_seen = False
-        for _ in range(8):
+        again_seen = cases_per_key[key] >= 2      # observed by two different cases already
+        for _ in range(0 if again_seen else 8):
             try:
                 with core.case_time_zone(check, violation.case):
                     again = check.judge(violation.case)
